@@ -1,4 +1,5 @@
 pub mod eng;
+pub mod engsess;
 pub mod gen;
 pub mod props;
 pub mod refmodel;
